@@ -1,4 +1,391 @@
-import PysphVerif.Model.PArray
+import PysphVerif.Lemmas.PArrayStep
+import PysphVerif.Lemmas.PArrayParticles
+import PysphVerif.Lemmas.PArrayConsts
+/-!
+# C06 — a particle array stays coherent under any sequence of operations
+
+Property theorems only (helper lemmas live in `Lemmas/PArray*.lean`).  They are
+about `Model/PArray.lean`, which transcribes `pysph/base/particle_array.pyx`
+mutator by mutator and is tied to the code by exact state comparison after
+every operation of seeded operation sequences (`harness/c06.py`).
+
+All statements are for every array / every pool of arrays / every finite
+sequence of operations; nothing is bounded.  `validOp` is the formal reading of
+"valid arguments"; an operation that is not valid, or on which the Python code
+raises, leaves the state unchanged.
+-/
 namespace PysphVerif.C06
-theorem placeholder : True := trivial
+open PysphVerif.PArray
+
+/-! ## A. a flat array read as rows of `stride` elements -/
+
+/-- reading a flat array as rows and flattening again is the identity -/
+theorem flat_rowsOf (s : Nat) (hs : 0 < s) (d : List Int) : flat (rowsOf s d) = d :=
+  PysphVerif.PArray.flat_rowsOf s hs d
+
+/-- rows of equal length `s > 0`, flattened and read back, are the same rows -/
+theorem rowsOf_flat (s : Nat) (hs : 0 < s) (R : List (List Int))
+    (hR : ∀ r ∈ R, r.length = s) : rowsOf s (flat R) = R :=
+  PysphVerif.PArray.rowsOf_flat s hs R hR
+
+/-- when the stride divides the length there are `length / stride` rows, all of
+length `stride` -/
+theorem rowsOf_length (s : Nat) (hs : 0 < s) (d : List Int) (h : s ∣ d.length) :
+    (rowsOf s d).length = d.length / s ∧ ∀ r ∈ rowsOf s d, r.length = s :=
+  rowsOf_length_of_dvd s hs d h
+
+/-! ## B. the invariant
+
+`Inv pa` (defined in `Lemmas/PArrayInv.lean`): every property `c` of `pa` has
+`0 < stride(c)` and `c.data.length = pa.n * stride(c)`; `tag` is the first
+property and has stride 1; property names are distinct; every key of the sparse
+`stride` dict is a property name (this is what the `fix:` commit to
+`remove_property` restored); `default_values` has exactly the property names as
+keys. -/
+
+/-- the definition of `Inv`, spelled out -/
+theorem inv_def (pa : PA) :
+    Inv pa ↔
+      (∀ c ∈ pa.props, 0 < pa.strideOf c.name ∧ c.data.length = pa.n * pa.strideOf c.name) ∧
+      (pa.props.map Col.name).head? = some "tag" ∧ pa.strideOf "tag" = 1 ∧
+      (pa.props.map Col.name).Nodup ∧
+      (∀ k ∈ pa.stride.map Prod.fst, k ∈ pa.props.map Col.name) ∧
+      pa.defaults.map Prod.fst = pa.props.map Col.name :=
+  ⟨fun h => ⟨h.len, h.tagFirst, h.tagStride, h.nodup, h.strideKeys, h.defaultKeys⟩,
+   fun h => ⟨h.1, h.2.1, h.2.2.1, h.2.2.2.1, h.2.2.2.2.1, h.2.2.2.2.2⟩⟩
+
+/-- `ParticleArray()` is coherent -/
+theorem inv_empty (nm : String) : Inv (PA.empty nm) := PysphVerif.PArray.inv_empty nm
+
+theorem inv_extend {pa : PA} (h : Inv pa) (k : Nat) :
+    Inv (pa.extend k) ∧ (pa.extend k).n = pa.n + k := PysphVerif.PArray.inv_extend h k
+
+theorem inv_resize {pa : PA} (h : Inv pa) (m : Nat) :
+    Inv (pa.resize m) ∧ (pa.resize m).n = m := PysphVerif.PArray.inv_resize h m
+
+theorem inv_removeParticles {pa pa' : PA} (h : Inv pa) (idx : List Nat) (al : Bool)
+    (hr : pa.removeParticles idx al = some pa') : Inv pa' :=
+  PysphVerif.PArray.inv_removeParticles h idx al hr
+
+theorem inv_removeTagged {pa pa' : PA} (h : Inv pa) (tag : Int) (al : Bool)
+    (hr : pa.removeTagged tag al = some pa') : Inv pa' :=
+  PysphVerif.PArray.inv_removeTagged h tag al hr
+
+theorem inv_align {pa : PA} (h : Inv pa) : Inv pa.align := PysphVerif.PArray.inv_align h
+
+theorem inv_setTag {pa : PA} (h : Inv pa) (tag : Int) (idx : List Nat) :
+    Inv (pa.setTag tag idx) := PysphVerif.PArray.inv_setTag h tag idx
+
+/-- `add_particles`: every given array must hold the same whole number of rows
+(the count is taken from the last one, as the code does) -/
+theorem inv_addParticles {pa pa' : PA} (h : Inv pa) (al : Bool) (given : List (String × List Int))
+    (hv : ∀ ln ld, given.getLast? = some (ln, ld) →
+      ∀ g ∈ given, g.2.length = (ld.length / pa.strideOf ln) * pa.strideOf g.1)
+    (hr : pa.addParticles al given = some pa') : Inv pa' :=
+  PysphVerif.PArray.inv_addParticles h al given hv hr
+
+/-- `add_property` keeps the invariant whenever the stride is positive; an
+existing property is re-added with its own stride (or 1 = "not given") unless
+the array is empty; `tag` keeps stride 1; data for a new property is a whole
+number of rows.  (Weaker than what `validOp` demands.) -/
+theorem inv_addProperty {pa pa' : PA} {name ctype : String} {dflt : Option Int}
+    {data : Option (List Int)} {stride : Nat}
+    (h : Inv pa) (h1 : 1 ≤ stride)
+    (h2 : name ∈ pa.props.map Col.name → stride = 1 ∨ stride = pa.strideOf name ∨ pa.n = 0)
+    (h3 : name = "tag" → stride = 1)
+    (h4 : ∀ d, data = some d → d.length ≠ 0 → name ∉ pa.props.map Col.name →
+      d.length % stride = 0)
+    (hr : pa.addProperty name ctype dflt data stride = some pa') : Inv pa' :=
+  PysphVerif.PArray.inv_addProperty h h1 h2 h3 h4 hr
+
+/-- `remove_property` (of anything but `tag`): the stride entry goes with the
+property, so the sparse stride dict keeps only property names -/
+theorem inv_removeProperty {pa : PA} (h : Inv pa) (name : String) (hn : name ≠ "tag") :
+    Inv (pa.removeProperty name) ∧ (pa.removeProperty name).n = pa.n :=
+  PysphVerif.PArray.inv_removeProperty h name hn
+
+theorem inv_addConstant {pa pa' : PA} (h : Inv pa) (name : String) (data : List Int)
+    (hr : pa.addConstant name data = some pa') : Inv pa' :=
+  PysphVerif.PArray.inv_addConstant h name data hr
+
+theorem inv_setProp {pa pa' : PA} (h : Inv pa) (name : String) (data : List Int)
+    (hr : pa.setProp name data = some pa') : Inv pa' :=
+  PysphVerif.PArray.inv_setProp h name data hr
+
+theorem inv_setOutputs {pa pa' : PA} (h : Inv pa) (ps : List String)
+    (hr : pa.setOutputs ps = some pa') : Inv pa' := PysphVerif.PArray.inv_setOutputs h ps hr
+
+theorem inv_addOutputs {pa pa' : PA} (h : Inv pa) (ps : List String)
+    (hr : pa.addOutputs ps = some pa') : Inv pa' := PysphVerif.PArray.inv_addOutputs h ps hr
+
+/-- `empty_clone`: coherent, empty, and every cloned name has the source's stride -/
+theorem inv_emptyClone {pa d : PA} (h : Inv pa) (props : Option (List String))
+    (hr : pa.emptyClone props = some d) :
+    Inv d ∧ d.n = 0 ∧ ∀ nm ∈ cloneNames pa props, d.strideOf nm = pa.strideOf nm :=
+  PysphVerif.PArray.inv_emptyClone h props hr
+
+/-- `extract_particles` into an existing array: the copied properties must have
+the same stride in both arrays -/
+theorem inv_extractInto {pa dest pa' : PA} (h : Inv pa) (hd : Inv dest) (idx : List Nat)
+    (al : Bool) (props : Option (List String))
+    (hss : ∀ nm ∈ cloneNames pa props, pa.strideOf nm = dest.strideOf nm)
+    (hr : pa.extractInto idx dest al props = some pa') : Inv pa' :=
+  PysphVerif.PArray.inv_extractInto h hd idx al props hss hr
+
+theorem inv_extract {pa pa' : PA} (h : Inv pa) (idx : List Nat) (al : Bool)
+    (props : Option (List String)) (hr : pa.extract idx al props = some pa') : Inv pa' :=
+  PysphVerif.PArray.inv_extract h idx al props hr
+
+theorem inv_appendParray {pa src pa' : PA} (h : Inv pa) (hs : Inv src) (al up : Bool)
+    (hr : pa.appendParray src al up = some pa') : Inv pa' :=
+  PysphVerif.PArray.inv_appendParray h hs al up hr
+
+theorem inv_ensureProperties {pa src pa' : PA} (h : Inv pa) (hs : Inv src)
+    (props : Option (List String)) (hr : pa.ensureProperties src props = some pa') :
+    Inv pa' ∧ pa'.n = pa.n ∧ pa'.consts = pa.consts :=
+  PysphVerif.PArray.inv_ensureProperties h hs props hr
+
+theorem inv_pickle {pa pa' : PA} (h : Inv pa) (hr : pa.pickle = some pa') : Inv pa' :=
+  PysphVerif.PArray.inv_pickle h hr
+
+/-- one operation on a pool of coherent arrays leaves every array coherent -/
+theorem inv_applyOp (st : State) (op : Op) (h : ∀ pa ∈ st, Inv pa) :
+    ∀ pa ∈ applyOp st op, Inv pa := PysphVerif.PArray.inv_applyOp st op h
+
+/-- **Headline.** After any finite sequence of operations starting from the
+empty pool, every array is coherent: each property holds exactly
+`number_of_particles × stride` values, and `stride`/`default_values` are in
+step with the properties. -/
+theorem inv_reachable (ops : List Op) : ∀ pa ∈ run ops, Inv pa := inv_run ops
+
+/-- the length statement on its own, for every reachable array and property -/
+theorem reachable_lengths (ops : List Op) (pa : PA) (hpa : pa ∈ run ops) (c : Col)
+    (hc : c ∈ pa.props) : c.data.length = pa.n * pa.strideOf c.name :=
+  ((inv_run ops pa hpa).len c hc).2
+
+/-! ### non-vacuity: a concrete history with a strided property and mixed tags -/
+
+/-- create, add a strided property, add particles with mixed tags (aligning),
+remove one, remove the strided property and add it back with stride 1 (the
+order of calls that exposed the stale-stride defect), grow, pickle -/
+def demoOps : List Op :=
+  [ .new "fluid",
+    .addProperty 0 "x" "double" none none 1,
+    .addProperty 0 "v" "double" (some 7) none 3,
+    .addConstant 0 "c0" [5, 6],
+    .addParticles 0 true [("x", [10, 11, 12, 13]), ("tag", [2, 0, 1, 0]),
+                          ("v", [1, 2, 3, 4, 5, 6, 7, 8, 9, 10, 11, 12])],
+    .removeParticles 0 [0] true,
+    .removeProperty 0 "v",
+    .addProperty 0 "v" "double" none none 1,
+    .extend 0 2,
+    .pickle 0 ]
+
+/-- every operation of the demo history is valid in the state it is applied to -/
+example : (demoOps.foldl (fun (p : State × Bool) op => (applyOp p.1 op, p.2 && validOp p.1 op))
+    ([], true)).2 = true := by decide
+
+example : (run demoOps).map PA.n = [5, 5] := by decide
+example : (run demoOps).map (fun pa => pa.props.map (fun c => (c.name, c.data.length))) =
+    [[("tag", 5), ("pid", 5), ("gid", 5), ("x", 5), ("v", 5)],
+     [("tag", 5), ("pid", 5), ("gid", 5), ("x", 5), ("v", 5)]] := by decide
+/-- before the strided property is removed it holds `3 × n` values -/
+example : (run (demoOps.take 6)).map (fun pa => (pa.n, pa.strideOf "v",
+    (pa.props.filter (·.name == "v")).map (·.data))) =
+    [(3, 3, [[10, 11, 12, 1, 2, 3, 7, 8, 9]])] := by decide
+example : ∀ pa ∈ run demoOps, Inv pa := inv_reachable demoOps
+
+/-! ## C. whole particles stay together
+
+`particles pa` (defined in `Lemmas/PArrayParticles.lean`) is the array seen as a
+list of records: slot `k` ↦ for every property its `k`-th row. -/
+
+/-- the definition of `particles`, spelled out -/
+theorem particles_def (pa : PA) :
+    particles pa = (List.range pa.n).map (fun k => pa.props.map (fun (c : Col) =>
+      (c.name, (rowsOf (pa.strideOf c.name) c.data).getD k []))) := rfl
+
+/-- naturality of the polymorphic row removal: it is a gather through an index
+list that depends only on the indices and the length -/
+theorem removeRows_naturality {β : Type} (idx : List Nat) (l : List β) :
+    removeRows idx l = gather (removeRows idx (List.range l.length)) l :=
+  removeRows_eq_gather idx l
+
+theorem gather_naturality {β γ : Type} (f : β → γ) (src : List Nat) (l : List β) :
+    (gather src l).map f = gather src (l.map f) := gather_map f src l
+
+/-- gathering every property through the same index list gathers whole particles -/
+theorem gather_particles_together {pa : PA} (h : Inv pa) (src : List Nat)
+    (hsrc : ∀ i ∈ src, i < pa.n) :
+    particles (pa.mapRows (gather src)) = gather src (particles pa) :=
+  mapRows_gather_particles h src hsrc
+
+/-- `remove_particles(idx, align=False)` removes whole particles: the particle
+list afterwards is the generic row removal applied to the particle list — the
+same row map for every property -/
+theorem removeParticles_particles {pa pa' : PA} (h : Inv pa) (idx : List Nat)
+    (hr : pa.removeParticles idx false = some pa') :
+    particles pa' = removeRows (sortNat idx) (particles pa) := by
+  rw [removeParticles_noalign pa idx pa' hr]
+  exact mapRows_removeRows_particles h (sortNat idx)
+
+/-- for sorted, distinct, in-range indices exactly the addressed records
+disappear: what is left together with the addressed records is a permutation of
+the original list -/
+theorem removeRows_perm {β : Type} (idx : List Nat) (l : List β) (hs : idx.Pairwise (· < ·))
+    (hr : ∀ i ∈ idx, i < l.length) : (removeRows idx l ++ gather idx l).Perm l :=
+  PysphVerif.PArray.removeRows_perm idx l hs hr
+
+/-- `remove_particles` with distinct in-range indices: the remaining particles
+plus the addressed ones are a permutation of the particles before -/
+theorem removeParticles_exact {pa pa' : PA} (h : Inv pa) (idx : List Nat) (hnd : idx.Nodup)
+    (hin : ∀ i ∈ idx, i < pa.n) (hr : pa.removeParticles idx false = some pa') :
+    (particles pa' ++ gather (sortNat idx) (particles pa)).Perm (particles pa) := by
+  rw [removeParticles_particles h idx hr]
+  apply PysphVerif.PArray.removeRows_perm _ _ (sortNat_strict idx hnd)
+  intro i hi
+  rw [particles_length]
+  exact hin i ((sortNat_perm idx).subset hi)
+
+/-- `align_particles` permutes whole particles -/
+theorem align_particles_perm {pa : PA} (h : Inv pa) :
+    (particles pa.align).Perm (particles pa) := PysphVerif.PArray.align_particles_perm h
+
+/-- `extend(k)` appends `k` particles with every property at its default and
+leaves the existing particles alone -/
+theorem extend_particles {pa : PA} (h : Inv pa) (k : Nat) :
+    particles (pa.extend k) = particles pa ++ List.replicate k (defaultParticle pa) :=
+  PysphVerif.PArray.extend_particles h k
+
+/-- `add_particles(align=False, **given)`: the old particles stay and `k` new
+ones are appended, each carrying the given row or the default of every property
+(`k` = number of rows of the last given array, as the code computes it) -/
+theorem addParticles_particles {pa pa' : PA} (h : Inv pa) (given : List (String × List Int))
+    (ln : String) (ld : List Int) (hlast : given.getLast? = some (ln, ld))
+    (hv : ∀ g ∈ given, g.2.length = (ld.length / pa.strideOf ln) * pa.strideOf g.1)
+    (hr : pa.addParticles false given = some pa') :
+    pa'.n = pa.n + ld.length / pa.strideOf ln ∧
+    particles pa' = particles pa ++
+      (List.range (ld.length / pa.strideOf ln)).map
+        (newParticle pa given (ld.length / pa.strideOf ln)) :=
+  addParticles_particles' h given ln ld hlast hv hr
+
+/-- the definition of the new particle `j`, spelled out -/
+theorem newParticle_def (pa : PA) (given : List (String × List Int)) (k j : Nat) :
+    newParticle pa given k j = pa.props.map (fun (c : Col) => (c.name,
+      (match given.find? (fun (g : String × List Int) => g.1 == c.name) with
+        | some g => rowsOf (pa.strideOf c.name) g.2
+        | none => List.replicate k (defaultRow pa c.name)).getD j [])) := rfl
+
+/-! ### non-vacuity for C: a 4-particle array with a stride-3 property and tags 0,0,1,2 -/
+
+def demoPA : PA := ((run (demoOps.take 5))[0]?).getD (PA.empty "")
+
+example : Inv demoPA := inv_reachable (demoOps.take 5) demoPA (by decide)
+example : particles demoPA =
+    [[("tag", [0]), ("pid", [0]), ("gid", [4294967295]), ("x", [11]), ("v", [4, 5, 6])],
+     [("tag", [0]), ("pid", [0]), ("gid", [4294967295]), ("x", [13]), ("v", [10, 11, 12])],
+     [("tag", [1]), ("pid", [0]), ("gid", [4294967295]), ("x", [12]), ("v", [7, 8, 9])],
+     [("tag", [2]), ("pid", [0]), ("gid", [4294967295]), ("x", [10]), ("v", [1, 2, 3])]] := by
+  decide
+/-- removing slots 2 and 0 (given unsorted) leaves exactly the other two records -/
+example : (demoPA.removeParticles [2, 0] false).map particles = some
+    [[("tag", [2]), ("pid", [0]), ("gid", [4294967295]), ("x", [10]), ("v", [1, 2, 3])],
+     [("tag", [0]), ("pid", [0]), ("gid", [4294967295]), ("x", [13]), ("v", [10, 11, 12])]] := by
+  decide
+/-- two new particles: `tag` and the strided `v` given, `x`/`pid`/`gid` defaulted -/
+example : (demoPA.addParticles false [("tag", [1, 0]), ("v", [21, 22, 23, 24, 25, 26])]).map
+    (fun pa => (particles pa).drop 4) = some
+    [[("tag", [1]), ("pid", [0]), ("gid", [4294967295]), ("x", [0]), ("v", [21, 22, 23])],
+     [("tag", [0]), ("pid", [0]), ("gid", [4294967295]), ("x", [0]), ("v", [24, 25, 26])]] := by
+  decide
+
+/-! ## D. alignment -/
+
+/-- the index array built by `align_particles` is a permutation of `0 … n-1` -/
+theorem alignIndex_perm (tags : List Int) :
+    (alignIndex tags).1.Perm (List.range tags.length) := PysphVerif.PArray.alignIndex_perm tags
+
+/-- **after `align_particles`** the particle count is unchanged,
+`num_real_particles` is the number of Local tags (before and after), and slot
+`k` holds a Local-tagged particle iff `k < num_real_particles` -/
+theorem align_real_first {pa : PA} (h : Inv pa) :
+    pa.align.n = pa.n ∧
+    pa.align.nReal = (pa.tags.filter (· == localTag)).length ∧
+    pa.align.nReal = (pa.align.tags.filter (· == localTag)).length ∧
+    ∀ k, k < pa.align.n →
+      (pa.align.tags.getD k 1 == localTag) = decide (k < pa.align.nReal) :=
+  align_real_first' h
+
+/-- a misaligned array (slot 0 retagged Ghost): alignment moves the Local particle
+to the front, as a whole record -/
+example : ((demoPA.setTag 2 [0]).tags, (demoPA.setTag 2 [0]).align.tags,
+    (demoPA.setTag 2 [0]).align.nReal) = ([2, 0, 1, 2], [0, 2, 1, 2], 1) := by decide
+example : (particles (demoPA.setTag 2 [0]).align).head? =
+    some [("tag", [0]), ("pid", [0]), ("gid", [4294967295]), ("x", [13]), ("v", [10, 11, 12])] := by
+  decide
+
+/-! ## E. constants are untouched -/
+
+/-- the definition of `touchesConsts`: `add_constant`, `set` on a name that is not
+a property, `append_parray(update_constants=True)` -/
+theorem touchesConsts_def (st : State) (op : Op) :
+    touchesConsts st op = (match op with
+      | .addConstant _ _ _ => true
+      | .setProp s name _ => (match st[s]? with
+          | some pa => !pa.hasProp name
+          | none => false)
+      | .append _ _ _ up => up
+      | _ => false) := by
+  cases op <;> rfl
+
+/-- every other operation leaves the constants of every existing array alone
+(arrays created by `empty_clone` / `extract_particles` / pickling /
+`ParticleArray()` go to new slots of the pool) -/
+theorem consts_untouched (st : State) (op : Op) (ht : touchesConsts st op = false)
+    (k : Nat) (pa : PA) (hk : st[k]? = some pa) :
+    ∃ pa', (applyOp st op)[k]? = some pa' ∧ pa'.consts = pa.consts :=
+  consts_untouched_step st op ht k pa hk
+
+example : (run demoOps).map PA.consts = [[("c0", [5, 6])], [("c0", [5, 6])]] := by decide
+
+/-! ## F. pickle round trip -/
+
+/-- `pickle.loads(pickle.dumps(pa))`, when it succeeds, rebuilds a coherent array
+with the same properties (names, C types, data, order), the same stride for
+every name, the same defaults and constants, and recounts the real particles -/
+theorem pickle_roundtrip {pa pa' : PA} (h : Inv pa) (hr : pa.pickle = some pa') :
+    Inv pa' ∧ pa'.props = pa.props ∧ pa'.defaults = pa.defaults ∧
+      (∀ nm, pa'.strideOf nm = pa.strideOf nm) ∧ pa'.consts = pa.consts ∧
+      pa'.name = pa.name ∧ pa'.outputs = [] ∧
+      pa'.nReal = (pa.tags.filter (· == localTag)).length :=
+  pickle_spec h hr
+
+example : ((run demoOps)[0]?).bind PA.pickle = (run demoOps)[1]? := by decide
+
+/-- pickling succeeds when the constant names are distinct and differ from every
+property name.  The second condition is NOT an invariant of reachable states
+(`add_property` accepts the name of an existing constant, see `clashOps`). -/
+theorem pickle_succeeds {pa : PA} (h : Inv pa) (hcn : (pa.consts.map Prod.fst).Nodup)
+    (hcd : ∀ k ∈ pa.consts.map Prod.fst, k ∉ pa.props.map Col.name) :
+    ∃ pa', pa.pickle = some pa' := PysphVerif.PArray.pickle_succeeds h hcn hcd
+
+/-- a valid history after which the array cannot be un-pickled: a constant and a
+property with the same name (the real `__setstate__` raises
+`RuntimeError: Property called "m" already exists.`) -/
+def clashOps : List Op :=
+  [ .new "a", .addConstant 0 "m" [1], .addProperty 0 "m" "double" none none 1 ]
+
+example : (clashOps.foldl (fun (p : State × Bool) op => (applyOp p.1 op, p.2 && validOp p.1 op))
+    ([], true)).2 = true ∧ ((run clashOps)[0]?).bind PA.pickle = none := by decide
+
+/-- sharpness of the stride condition of `inv_addProperty` (and of `validOp`):
+re-adding an existing property of a non-empty array with another stride rewrites
+`stride[name]` without resizing the array — 2 particles, stride 3, 2 values -/
+example : (((run [.new "c", .addProperty 0 "x" "double" none none 1,
+      .addParticles 0 true [("x", [1, 2])]])[0]?).bind
+      (fun pa => pa.addProperty "x" "double" none none 3)).map
+      (fun pa => (pa.n, pa.strideOf "x", (pa.props.filter (·.name == "x")).map (·.data.length)))
+    = some (2, 3, [2]) := by decide
+
 end PysphVerif.C06
